@@ -241,6 +241,76 @@ Proof.
   cbn in *. subst. reflexivity.
 Qed.
 
+(* ---------- the two wrong rollbacks are exact on every block WITHOUT an output created and
+   spent/trimmed inside the block: only intra-block chains tell them from [rollback] ---------- *)
+Definition no_intra_spend (e : effect) : Prop :=
+  forall k, In k (map fst (e_spent e ++ e_trimmed e)) -> ~ In k (created_keys e).
+
+Lemma utxo_apply_sorted (d : db) (e : effect) : sorted (utxo d) -> sorted (utxo (apply d e)).
+Proof. intros S. unfold apply; cbn. repeat apply del_all_sorted. apply put_all_sorted. exact S. Qed.
+
+Lemma restore_notcreated d e k : sorted (utxo d) -> wf_utxo d e -> ~ In k (created_keys e) ->
+  get k (put_all (e_spent e ++ e_trimmed e) (utxo (apply d e))) = get k (utxo d).
+Proof.
+  intros S (W1 & W2 & W3) Hc.
+  rewrite get_put_all. destruct (first_rec k (rev (e_spent e ++ e_trimmed e))) as [v|] eqn:F.
+  - apply first_rec_rev_In in F. destruct (W2 _ _ F) as [H|H]; [contradiction|]. symmetry; exact H.
+  - apply first_rec_rev_None in F. rewrite map_app in F. unfold apply; cbn.
+    rewrite get_del_all_notin;
+      [|apply del_all_sorted; apply put_all_sorted; exact S|intros H; apply F; apply in_or_app; right; exact H].
+    rewrite get_del_all_notin; [|apply put_all_sorted; exact S|intros H; apply F; apply in_or_app; left; exact H].
+    rewrite get_put_all. destruct (first_rec k (rev (e_created e))) as [v|] eqn:F2; [|reflexivity].
+    apply first_rec_rev_In in F2. apply W3 in F2. contradiction.
+Qed.
+
+Lemma utxo_delete_first_no_chain d e : sorted (utxo d) -> wf_utxo d e -> no_intra_spend e ->
+  utxo (rollback_delete_first (apply d e) e) = utxo d.
+Proof.
+  intros S W N. pose proof (utxo_apply_sorted d e S) as SX. pose proof W as (W1 & W2 & W3).
+  unfold rollback_delete_first; cbn [utxo]. fold (created_keys e).
+  apply sorted_ext; [apply put_all_sorted; apply del_all_sorted; exact SX|exact S|].
+  intros k. destruct (kmem_dec k (created_keys e)) as [Hc|Hc].
+  - rewrite get_put_all. destruct (first_rec k (rev (e_spent e ++ e_trimmed e))) as [v|] eqn:F.
+    + apply first_rec_rev_In in F. exfalso. apply (N k); [|exact Hc].
+      apply in_map_iff. exists (k, v). split; [reflexivity|exact F].
+    + rewrite get_del_all_in; [|exact SX|exact Hc]. symmetry. apply W1; exact Hc.
+  - rewrite <- (restore_notcreated d e k S W Hc). rewrite !get_put_all.
+    destruct (first_rec k (rev (e_spent e ++ e_trimmed e))); [reflexivity|].
+    apply get_del_all_notin; [exact SX|exact Hc].
+Qed.
+
+Lemma utxo_skip_absent_no_chain d e : sorted (utxo d) -> wf_utxo d e -> no_intra_spend e ->
+  utxo (rollback_skip_absent (apply d e) e) = utxo d.
+Proof.
+  intros S W N. pose proof (utxo_apply_sorted d e S) as SX. pose proof W as (W1 & W2 & W3).
+  unfold rollback_skip_absent; cbn [utxo]. fold (created_keys e).
+  set (X := utxo (apply d e)) in *.
+  set (F := filter (fun k => presentb k X) (created_keys e)).
+  assert (SP : sorted (put_all (e_spent e ++ e_trimmed e) X)) by (apply put_all_sorted; exact SX).
+  apply sorted_ext; [apply del_all_sorted; exact SP|exact S|].
+  intros k. destruct (kmem_dec k (created_keys e)) as [Hc|Hc].
+  - rewrite (W1 _ Hc). destruct (presentb k X) eqn:P.
+    + apply get_del_all_in; [exact SP|]. unfold F. apply filter_In. split; [exact Hc|exact P].
+    + rewrite get_del_all_notin; [|exact SP|unfold F; intros H; apply filter_In in H; destruct H as [_ H]; congruence].
+      rewrite get_put_all. destruct (first_rec k (rev (e_spent e ++ e_trimmed e))) as [v|] eqn:F0.
+      * apply first_rec_rev_In in F0. exfalso. apply (N k); [|exact Hc].
+        apply in_map_iff. exists (k, v). split; [reflexivity|exact F0].
+      * unfold presentb in P. destruct (get k X); [discriminate|reflexivity].
+  - rewrite get_del_all_notin; [|exact SP|unfold F; intros H; apply filter_In in H; destruct H as [H _]; contradiction].
+    unfold X. apply restore_notcreated; assumption.
+Qed.
+
+Lemma wrong_rollbacks_exact_without_intra_spend d e : db_ok d -> wf_effect d e -> no_intra_spend e ->
+  rollback_delete_first (apply d e) e = d /\ rollback_skip_absent (apply d e) e = d.
+Proof.
+  intros Hok Hwf N. pose proof (rollback_apply_id_lemma d e Hok Hwf) as R.
+  destruct Hok as (Su & _). destruct Hwf as (Wu & _).
+  pose proof (utxo_delete_first_no_chain d e Su Wu N) as H1.
+  pose proof (utxo_skip_absent_no_chain d e Su Wu N) as H2.
+  unfold rollback_delete_first, rollback_skip_absent in *. cbn [utxo] in H1, H2.
+  rewrite R. rewrite H1, H2. destruct d; split; reflexivity.
+Qed.
+
 Lemma apply_all_app (d : db) a b : apply_all d (a ++ b) = apply_all (apply_all d a) b.
 Proof. unfold apply_all. apply fold_left_app. Qed.
 Lemma rollback_all_app (d : db) a b : rollback_all d (a ++ b) = rollback_all (rollback_all d a) b.
@@ -473,6 +543,54 @@ Lemma db_sortedb_ok {L} (d : db L) : db_sortedb d = true -> db_ok d.
 Proof.
   unfold db_sortedb. intros H. apply andb_prop in H as [H H3]. apply andb_prop in H as [H1 H2].
   repeat split; apply sortedb_sorted; assumption.
+Qed.
+
+(* ================= outputs created and spent inside one block ================= *)
+(* whatever the state: after the rollback batch of a block none of its created keys is present *)
+Lemma created_absent_after_rollback {L} (d : db L) (e : effect L) k :
+  sorted (utxo d) -> In k (created_keys e) -> get k (utxo (rollback d e)) = None.
+Proof.
+  intros S H. unfold rollback; cbn. fold (created_keys e).
+  apply get_del_all_in; [apply put_all_sorted; exact S|exact H].
+Qed.
+
+(* block 5 on [ic_db]: tx1 spends [1] and creates [7] and [8]; tx2 spends [7] (created by tx1 in the
+   same block) and creates [9]; tx3 spends [9] and creates [6]; an old output [3] is trimmed *)
+Definition ic_db : db val :=
+  mkDb [([1], [10]); ([2], [20]); ([3], [30])] [] [([4], [44])] [44].
+Definition ic_eff : effect val :=
+  mkEff 5 [55] [44] [([7], [70]); ([8], [80]); ([9], [90]); ([6], [60])] [[7]; [8]; [9]; [6]]
+        [([1], [10]); ([7], [70]); ([9], [90])] [([3], [30])] [] [] [].
+
+Lemma ic_wf : db_ok ic_db /\ wf_effect ic_db ic_eff.
+Proof.
+  split; [apply db_sortedb_ok; vm_compute; reflexivity|].
+  apply (wf_effectb_sound keqb keqb_eq). vm_compute. reflexivity.
+Qed.
+
+Lemma intra_chain_facts :
+  apply ic_db ic_eff = mkDb [([2], [20]); ([6], [60]); ([8], [80])] [] [([4], [44]); ([5], [55])] [55]
+  /\ rollback (apply ic_db ic_eff) ic_eff = ic_db.
+Proof. vm_compute. split; reflexivity. Qed.
+
+Lemma rollback_delete_first_refuted_lemma :
+  exists (d : db val) e k, db_ok d /\ wf_effect d e /\ rollback (apply d e) e = d /\
+    get k (utxo d) = None /\ get k (utxo (apply d e)) = None /\
+    get k (utxo (rollback_delete_first (apply d e) e)) <> None.
+Proof.
+  exists ic_db, ic_eff, [7]. destruct ic_wf as [A B].
+  split; [exact A|]. split; [exact B|]. split; [vm_compute; reflexivity|].
+  split; [vm_compute; reflexivity|]. split; [vm_compute; reflexivity|]. vm_compute. discriminate.
+Qed.
+
+Lemma rollback_skip_absent_refuted_lemma :
+  exists (d : db val) e k, db_ok d /\ wf_effect d e /\ rollback (apply d e) e = d /\
+    get k (utxo d) = None /\ get k (utxo (apply d e)) = None /\
+    get k (utxo (rollback_skip_absent (apply d e) e)) <> None.
+Proof.
+  exists ic_db, ic_eff, [9]. destruct ic_wf as [A B].
+  split; [exact A|]. split; [exact B|]. split; [vm_compute; reflexivity|].
+  split; [vm_compute; reflexivity|]. split; [vm_compute; reflexivity|]. vm_compute. discriminate.
 Qed.
 
 (* ================= the restore record must carry the previous bytes ================= *)
